@@ -134,7 +134,8 @@ def run(ctx):
     info.pop("tables")
     ctx.notes["tables"] = {k: info[k] for k in ("probe_programs", "binary_cells", "unary_cells",
                                                   "assign_cells", "changed", "complete")}
-    ctx.notes["exhaustive"] = ("operators x ordered operand type pairs of the typing/emission tables used by "
+    ctx.notes["exhaustive"] = bool(info["complete"])
+    ctx.notes["exhaustive_scope"] = ("operators x ordered operand type pairs of the typing/emission tables used by "
                                "rt_eval enumerated completely: %s; values are sampled (proved for all values)"
                                % bool(info["complete"]))
     if info["problems"]:
